@@ -5,7 +5,7 @@ CONFIG = dict(
               "callback (exactly one response, its origin, its content) + a counting invariant over histories of any number of clients and "
               "in-flight requests + a transition system of the WHOLE front-end (one mailbox, session table, request-id allocator and pending table "
               "shared by all requests; back-end queues; adversarial scheduler) with invariants proved over every schedule; differential run of the "
-              "model against a whole single-process node (real front + back services, real ClientSession over in-memory connections read through the "
+              "model against a whole single-process node (real front + back services, real ClientSession objects created by the REAL accept loop pomelo.StartAcceptor from connections queued together in an in-memory acceptor.Acceptor and read through the "
               "real tcpPlayerConn.GetNextMessage, virtual time) + the property predicate on what the raw clients read",
     level_text="Machine-checked proof in Lean 4, for every configuration (handler tables, route function, directory), session, route string, "
                "payload and id < 2^32: a request (id != 0) yields exactly one Response on the same connection with the same id (request_one_response_partial; the full statement RequestOneResponse over all wire ids is REFUTED by request_one_response_full_fails — known finding D19: the envelope truncates the id to 32 bits, request_answered_with_truncated_id says what happens instead); "
@@ -13,7 +13,7 @@ CONFIG = dict(
                "the target being the front iff the route names the front's type, else the live instance of that type the route function selects "
                "(request_served_by_target, target_spec, response_origin_is_target, front_answers_iff_own_type, relay_unchanged); every other request "
                "gets exactly one error response and no handler runs (unserviceable_gets_error + the named cases: no target, malformed route, unknown "
-               "method, undecodable payload, request to a notify-shaped method, handler failure/panic); a notification is never answered and runs "
+               "method, undecodable payload, request to a notify-shaped method, handler failure/panic, a ROUTE FUNCTION that panics for the session — RouteService.doRoute's recover, model doRoute, theorems route_panic_gets_error / route_panic_notify_dropped); a notification is never answered and runs "
                "the handler exactly once when deliverable (notify_once_no_response); over every history of interleaved requests from any number of "
                "connections and time steps, written + in-flight responses = requests per (connection, id), and 42 s after the last message each "
                "has exactly its responses (history_conservation, history_exactly_one, history_no_response_to_notify). The synchronous frame of a request handler is modelled after "
@@ -32,9 +32,9 @@ CONFIG = dict(
                "reachable from every state by the owner, the expiry scan and the timers alone (shared_can_quiesce); every response names a message sent on its own "
                "connection and is justified by THAT message: front-local = the per-message model's response, forwarded = timeout/failure error or the result its "
                "own target computed from its own envelope (shared_response_justified, shared_data_from_own_target, shared_front_local_is_serve, "
-               "serve_answer_allowed); the 'missmatch res' branch is dead as an invariant (shared_reply_matches). The model is tied to the "
-               "code on every run: generated cases (1-3 clients, bursts written concurrently, bindings to live / unknown / dead / wrong-type "
-               "instances, all zoo methods, malformed routes, ids 0/1/127/128/16383/16384/2^32-1 and a stream of ids >= 2^32 (2^32, 2^32+5, 2^33+1, 2^64-1), valid/undecodable/empty/null payloads, slow and "
+               "serve_answer_allowed); the 'missmatch res' branch is dead as an invariant (shared_reply_matches). The accept loop is modelled (acceptLoop: one session per queued connection, on that connection, for any number of connections arriving together: accept_serves_each_connection_once; accept_deferred_witness = session creation deferred to goroutines that read the shared loop variable) and discharges the shared machine's hypothesis wellUsed: for any batch of accepted connections followed by any schedule without a close, every accepted connection loses nothing and at rest has exactly one response per request (accepted_connections_well_used, accepted_connections_exactly_one). The model is tied to the "
+               "code on every run: generated cases (1-3 clients whose connections are queued TOGETHER in the acceptor's channel and turned into sessions by the real StartAcceptor loop — each must be served by exactly one session and answer the handshake —, bursts written concurrently, bindings to live / unknown / dead / wrong-type "
+               "instances and to a NUMBER instead of a string (the tie's route function does the usual unchecked type assertion and panics), all zoo methods, malformed routes, ids 0/1/127/128/16383/16384/2^32-1 and a stream of ids >= 2^32 (2^32, 2^32+5, 2^33+1, 2^64-1), valid/undecodable/empty/null payloads, slow and "
                "late handlers, 31 s forward timeouts, handler durations of 2 s / 29 s / 33 s / 42 s around the 30 s request timeout, bursts delivered in fragments of 1-64 bytes through the real TCP stream reassembly, back-end handlers that never "
                "complete or complete twice, handler errors with an empty text, handlers that complete and then panic / whose result makes the completion function panic / that panic after an asynchronous completion — at the front and at the back-ends —, "
                "and every handler frame of up to 3 acts + random ones of up to 4 driven directly through the real CallWithSerialize/CallMethod/SafeCall, op frame) run through the real node and compared as multisets per connection; the shared "
@@ -47,7 +47,7 @@ CONFIG = dict(
                "the request-id allocator of the shared machine does not wrap (wrap and id re-use are C01's; the run exercises the wrap); sessions that close with responses "
                "in flight are C05's; ids >= 2^32 are inside the check as known finding D19 (model truncates like the code, the spec monitor reports C02/request-id-truncated); routes that are not "
                "valid UTF-8 are modelled (forwarded envelope not serialisable -> error response); a forwarded handler result that cannot be marshalled or a handler error with an EMPTY text reaches the client as a success with an empty body (modelled, theorem unserialisable_result, reported); the timeout instant "
-               "is nominal in the per-message model (31 s, observed at 5 s granularity; abstract in the shared machine: both outcomes of the race are schedules); TCP listener/accept loop, WS acceptor, actor remote and etcd are bypassed by the engine (the TCP connection's framing is the real tcpPlayerConn).",
+               "is nominal in the per-message model (31 s, observed at 5 s granularity; abstract in the shared machine: both outcomes of the race are schedules); the session-creating loop pomelo.StartAcceptor is inside the run since round 8 (in-memory acceptor.Acceptor; every reset queues its connections together); the socket listeners (TCPAcceptor/WSAcceptor ListenAndServe), actor remote and etcd are bypassed by the engine (the TCP connection's framing is the real tcpPlayerConn).",
     lean_targets=["Cell2v.Props.C02", "modeld_c02"],
     driver="modeld_c02",
     driver_root="Cell2v.Driver.C02",
@@ -59,7 +59,9 @@ CONFIG = dict(
                        "shared_no_response_to_notify", "shared_response_justified", "shared_data_from_own_target",
                        "shared_front_local_is_serve", "serve_answer_allowed", "shared_reply_matches", "shared_pending_ids_unique",
                        "callmethod_exactly_one", "safecall_adds_nothing_after_completion", "panicked_frame_is_completed", "behResult_is_callMethod",
-                       "d23_witness", "complete_then_panic_one_response", "completion_panic_gets_error"],
+                       "d23_witness", "complete_then_panic_one_response", "completion_panic_gets_error",
+                       "route_panic_gets_error", "route_panic_notify_dropped", "accept_serves_each_connection_once", "accept_deferred_witness",
+                       "accepted_connections_well_used", "accepted_connections_exactly_one"],
     harness_pkg="./c02",
     go_flags=["-overlay=/verif/harness/c02/overlay/overlay.json"],
     mode="diff",
@@ -71,17 +73,17 @@ CONFIG = dict(
                      dict(name="seed3", env={"VERIF_N": "40000"}, seed_offset=104729, timeout=1500)],
     },
     trivial=r"^(ok|bad-op|r= i=|done=)?$",
-    rule="corpus (the D4a/D4b witnesses, an interleaving case, fragmented delivery, misbehaving back-end handlers, the D23 family: complete-then-panic / panicking completion function on both paths), all 85 handler frames of up to 3 acts (op frame), then generated cases from one PRNG (VERIF_SEED): reset with 1-3 handshaken clients; "
-         "binds of the routing key to chat-1/chat-2/unknown/dead/wrong-type/empty; bursts of 1-6 messages written by all clients at once "
+    rule="corpus (the D4a/D4b witnesses, an interleaving case, fragmented delivery, misbehaving back-end handlers, the D23 family: complete-then-panic / panicking completion function on both paths), all 85 handler frames of up to 3 acts (op frame), then generated cases from one PRNG (VERIF_SEED): reset with 1-3 clients that connect at the same moment (all connections queued in the in-memory acceptor's channel before the real accept loop pomelo.StartAcceptor takes the first; observation lists every connection not served by exactly one session / without handshake response), then handshaken; "
+         "binds of the routing key to chat-1/chat-2/unknown/dead/wrong-type/empty/a number (#7: the route function's type assertion panics, doRoute recovers); bursts of 1-6 messages written by all clients at once "
          "(1 burst in 4 reaches the server in pieces of 1/2/3/5/7/16/64 bytes: op token frag=<k>; route: 85% type{gate,chat,hall,room} x group{zoo,nogrp,\"\"} x method{echo,fail,fail0,boom,slow,late,s29,s33,tell,nan,login,loginw,okboom,mboom,slowboom,nosuch,\"\"}, 4% {chat,hall,gate}.zoob.{hang,okboom} (back-only group: never completes / completes twice), 15% malformed; id: 0 and "
          "varint boundaries or random, unique per connection also modulo 2^32; 1 message in 64 carries an id >= 2^32 on a serviceable route (known finding D19); payload 80% valid with a case-unique value, else undecodable/empty/wrong type/null); "
-         "new clients that pipeline 1-4 messages behind their handshake while the front's owner goroutine is kept busy (AddSession posted, not yet run; repaired defect D20); re-handshakes on working connections with replies in flight (hs/ack; data packets sent in between are ignored by the reader), handlers whose result cannot be marshalled (zoo.nan), cases that start with the front's service-request counter 1-4 below MaxReqId (wrap); routes that are not valid UTF-8 (the forwarded envelope cannot be serialised); one flood per run: a client that stops reading, pipelines 10080 requests (more than the session's 9999-slot send queue) and resumes; cluster-view changes (node n2 carrying chat-2 and hall-2 becomes Init/Working/Retiring/Retired while sessions are bound to chat-2; the default route of type hall picks the first working instance); handlers that bind a user id and push the session to the front before completing, with and without waiting (zoo.login / zoo.loginw, first bind and re-bind); 1 step in 20 is op frame body=<0-4 acts over c,m,e,p>: one request-handler frame driven directly through the real CallWithSerialize / APICollection.Call / CallMethod / SafeCall with a completion function shaped like Process's (observation: the completions it received, in order); 5 s time steps; a final 45 s flush. One evaluation = one op; observation = per-connection multiset of (kind,id,errflag,payload hex) "
+         "1-2 MORE clients that connect together in the middle of a case (op join: a reconnect storm while sessions exist and requests are in flight; same path and observation as reset); new clients (accepted by the same loop) that pipeline 1-4 messages behind their handshake while the front's owner goroutine is kept busy (AddSession posted, not yet run; repaired defect D20); re-handshakes on working connections with replies in flight (hs/ack; data packets sent in between are ignored by the reader), handlers whose result cannot be marshalled (zoo.nan), cases that start with the front's service-request counter 1-4 below MaxReqId (wrap); routes that are not valid UTF-8 (the forwarded envelope cannot be serialised); one flood per run: a client that stops reading, pipelines 10080 requests (more than the session's 9999-slot send queue) and resumes; cluster-view changes (node n2 carrying chat-2 and hall-2 becomes Init/Working/Retiring/Retired while sessions are bound to chat-2; the default route of type hall picks the first working instance); handlers that bind a user id and push the session to the front before completing, with and without waiting (zoo.login / zoo.loginw, first bind and re-bind); 1 step in 20 is op frame body=<0-4 acts over c,m,e,p>: one request-handler frame driven directly through the real CallWithSerialize / APICollection.Call / CallMethod / SafeCall with a completion function shaped like Process's (observation: the completions it received, in order); 5 s time steps; a final 45 s flush. One evaluation = one op; observation = per-connection multiset of (kind,id,errflag,payload hex) "
          "read by the clients + multiset of handler invocations per service (op frame: done=<d|e…>); non-trivial = something was read, invoked or completed",
     trusted_base=[
         "Lean 4.33.0 kernel; axioms audited per theorem (propext, Classical.choice, Quot.sound)",
         "hand-written model lean/Cell2v/Model/ClientServe.lean tied to node/client/impls/{handler,forwarder,sessions}.go, builtin/system.go, "
         "apimapper/apientry, actorex/service by the differential run (harness/c02 + harness/node + modeld_c02); its function callMethod (CallMethod's completed flag + SafeCall) is tied twice: through the node (zoo.okboom/mboom/boom/fail/nan on both paths) and directly (op frame: arbitrary bodies through the real apientry.CallWithSerialize)",
-        "engine harness/node: real components assembled in one process; bypassed: TCP listener/accept loop and WS acceptor (net.Pipe wrapped in the REAL tcpPlayerConn through the one-line shim harness/c02/overlay/export_verif.go, mapped into package acceptor with go test -overlay; nothing under /repo is modified), actor remote, etcd",
+        "engine harness/node: real components assembled in one process; sessions are created by the real pomelo.StartAcceptor loop over an in-memory acceptor.Acceptor (Node.Accept; the step that queues the connections runs on one P so that 'arrived together' is what the loop sees on every run; a client write nobody reads within 2 s of virtual time counts as buffered by the transport, like a TCP send); bypassed: the socket listeners TCPAcceptor/WSAcceptor.ListenAndServe (net.Pipe wrapped in the REAL tcpPlayerConn through the one-line shim harness/c02/overlay/export_verif.go, mapped into package acceptor with go test -overlay; nothing under /repo is modified), actor remote, etcd",
         "the shared-state machine Model/ClientShared.lean is tied to the code through the per-message model: it is built from the same functions (tryCallCol, processForward, splitClientRoute, routeSerialisable, envelope), theorem serve_answer_allowed / shared_front_local_is_serve relate the two, and modeld_c02 runs both on every generated case and reports 'shared-model-diverges' in the flush observation if their responses or handler invocations differ",
         "go1.26.8 testing/synctest (virtual time, quiescence detection)",
         "harness canonicalisation: multisets (sorted) per op, heartbeats/handshake filtered, error responses carry no payload on the wire",
@@ -92,7 +94,8 @@ CONFIG = dict(
         "a back-end reply that is not the msgs.Response built by ProcessForwardMsg (other type, wrong SessionId/ClientReqId) is dropped silently by the front (theorem mismatched_reply_dropped); that this never happens to a reply of ProcessForwardMsg is an invariant of the shared machine (shared_reply_matches), given that request ids are not re-used while pending (C01)",
         "a request forwarded to an instance of the wrong type, to a PID without a living actor, or to a handler slower than 30 s is answered by the request-timeout error",
         "routes <= 255 bytes (a route that is not valid UTF-8 is modelled: the forwarded envelope cannot be serialised -> one error response; a genuine U+FFFD in a route is not generated)",
-        "the connection stays open until the response is written (session life cycle is C05); in the shared machine: the exactly-one theorems are about connections that are opened before they send and not closed (wellUsed), a message whose session the owner does not find is counted as dropped",
+        "the connection stays open until the response is written (session life cycle is C05); in the shared machine: the exactly-one theorems are about connections that are opened before they send and not closed (wellUsed; 'opened before they send' is PROVED for connections created by the accept loop: accepted_connections_well_used — what remains assumed is 'not closed'), a message whose session the owner does not find is counted as dropped",
+        "an application route function either returns or panics (a panic is recovered by RouteService.doRoute: modelled, proved, tied by binding the key to a number); a route function that blocks is not modelled",
         "the user id bound to a session is stamped on later envelopes (msgs.ClientMsg.ID) but nothing a client observes depends on it: login/loginw are modelled as echo-like handlers",
         "a request of a history is one the session's reader delivered: data packets sent between a repeated Handshake packet and its HandshakeAck are ignored by ClientSession.processPacket (modelled in the driver, not a theorem)",
         "a forwarded handler result the client serializer cannot marshal is relayed as a success with an empty body (ProcessForwardMsg ignores the Marshal error; theorem unserialisable_result states it; the spec accepts error or empty success there); the same for a handler error whose text is empty (zoo.fail0)",
